@@ -145,7 +145,7 @@ static Result check_planar(const J &c)
       const double foot_noise = std::min(foot_delta, foot_delta * foot_delta / (2 * std::max(std::fabs(xoff), 1e-300)));
       const double tol = 1e-3 + 1e-9 * (std::fabs(X) + std::fabs(Y) + total) + foot_noise;
       // the foot sits close to the first trench coordinate: listed weakness of the t^3 parametrisation of 2-point trenches
-      const bool near_first = sfoot < 0.01 * len;
+      const bool near_first = sfoot < 0.01 * len && pre.empty(); // (with collinear intermediate coordinates every failure belongs to that listed root cause)
       if (ref_finite)
         {
           if (std::fabs(ref_d.from) < 3 * maxthick) { r.nontrivial = true; r.inner_nt++; }
